@@ -369,7 +369,7 @@ def tm_requires_grad_(interp: Any, args: List[Any], kwargs: Dict[str, Any]) -> A
 def tm_zero_(interp: Any, args: List[Any], kwargs: Dict[str, Any]) -> Any:
     t = args[0]
     interp.ctx.effects.append(("inplace", t.storage, "zero_"))
-    t.val = LinComb()
+    t.storage.__dict__["fill"] = "zeros"
     return t
 
 
@@ -644,7 +644,7 @@ def t_ones(interp: Any, args: List[Any], kwargs: Dict[str, Any]) -> Any:
     elif isinstance(sh, (tuple, list)):
         sh = Shape(list(sh))
     t = SymTensor(sh, kwargs.get("dtype") or DTYPES["float32"], LinComb.const(1), None)
-    t.attrs["__fill__"] = "ones"
+    t.storage.__dict__["fill"] = "ones"
     return t
 
 
